@@ -455,6 +455,37 @@ func c04Run(c *hx.Ctx) {
 			}
 		}
 	}
+	// --- custom precincts smaller than the image, widths/heights just above a multiple of the precinct size
+	// (an extra last precinct column/row that holds a single narrow code-block column), >= 2 precinct rows, >= 1 level
+	for _, pw := range []int{32, 64} {
+		for lv := 1; lv <= 3; lv++ {
+			for _, extra := range []int{1, 2, (1 << lv) - 1} {
+				for _, mult := range []int{1, 2} {
+					w := mult*pw + extra
+					for _, h := range []int{w, 2*pw + 1, pw + 3} {
+						k := c04Cfg{W: w, H: h, C: []int{1, 3}[(lv+mult)%2], P: []int{8, 12}[(extra+mult)%2], Levels: lv,
+							CBW: 16, CBH: 16, PW: pw, PH: pw, Prog: (lv + extra + mult + h) % 5, Layers: 1 + (extra+h)%2, MCT: true}
+						c04Eval(c, k, c04Samples(r, k, 0), "custom-precinct-edge")
+						k.W, k.H = k.H, k.W
+						k.CBW, k.CBH = 4, 8
+						c04Eval(c, k, c04Samples(r, k, 0), "custom-precinct-edge")
+					}
+				}
+			}
+		}
+	}
+	// the seeded shape itself, every progression
+	for prog := 0; prog <= 4; prog++ {
+		k := c04Cfg{W: 33, H: 33, C: 1, P: 8, Levels: 1, CBW: 16, CBH: 16, PW: 32, PH: 32, Prog: prog, Layers: 1, MCT: false}
+		c04Eval(c, k, c04Samples(r, k, 0), "custom-precinct-edge")
+	}
+	// --- four components with the colour-transform switch on (no transform is applied to 4 components)
+	for _, p := range []int{8, 12, 16} {
+		for _, sg := range []bool{false, true} {
+			k := c04Cfg{W: 19, H: 14, C: 4, P: p, Signed: sg, Levels: 2, CBW: 8, CBH: 8, Prog: p % 5, Layers: 1 + p%2, MCT: true}
+			c04Eval(c, k, c04Samples(r, k, 0), "four-components-mct-on")
+		}
+	}
 	// --- random sweep
 	n := 700
 	maxDim := 48
